@@ -2,6 +2,7 @@ package main
 
 import (
 	"fmt"
+	"sync"
 	"go/types"
 	"sort"
 	"strings"
@@ -108,6 +109,7 @@ type Obligation struct {
 	Raw     map[string]string
 	Inputs  []string // terms whose values are requested from the model
 	Needs   []string
+	Blk     *ssa.BasicBlock
 	File    string
 	Candidate bool // model comes from the ground (quantifier-free) weakening
 }
@@ -121,7 +123,11 @@ type Ctx struct {
 	dset  map[string]bool
 	facts []string
 	ftags []string
+	fblks []*ssa.BasicBlock
 	curTag string
+	curBlk *ssa.BasicBlock
+	reachCache map[[2]*ssa.BasicBlock]bool
+	reachMu sync.Mutex
 	obs   []*Obligation
 	nfresh int
 	names map[string]int // obligation name de-duplication
@@ -166,6 +172,45 @@ func (c *Ctx) fact(f string) {
 	}
 	c.facts = append(c.facts, f)
 	c.ftags = append(c.ftags, c.curTag)
+	c.fblks = append(c.fblks, c.curBlk)
+}
+
+// blockReaches: can control flow from a to b along forward edges (a == b counts)?
+func (c *Ctx) blockReaches(a, b *ssa.BasicBlock) bool {
+	if a == b {
+		return true
+	}
+	c.reachMu.Lock()
+	defer c.reachMu.Unlock()
+	if c.reachCache == nil {
+		c.reachCache = map[[2]*ssa.BasicBlock]bool{}
+	}
+	key := [2]*ssa.BasicBlock{a, b}
+	if v, ok := c.reachCache[key]; ok {
+		return v
+	}
+	seen := map[*ssa.BasicBlock]bool{a: true}
+	stack := []*ssa.BasicBlock{a}
+	found := false
+	for len(stack) > 0 && !found {
+		x := stack[len(stack)-1]
+		stack = stack[:len(stack)-1]
+		for _, s := range x.Succs {
+			if s.Dominates(x) {
+				continue // back edge
+			}
+			if s == b {
+				found = true
+				break
+			}
+			if !seen[s] {
+				seen[s] = true
+				stack = append(stack, s)
+			}
+		}
+	}
+	c.reachCache[key] = found
+	return found
 }
 
 // guarded fact
